@@ -101,7 +101,7 @@ class C12(Prop):
     assumptions = ["designs are well-formed and self-contained (built by valid API calls only)",
                    "ALL from a hierarchical pin means the closure of its inside and outside wires; from a port or "
                    "cable the union over its members"]
-    runs = {"quick": 2500, "thorough": 60000}
+    runs = {"quick": 6000, "thorough": 150000}
 
     def configure(self, rng, tier):
         cfg = hier_config(rng)
